@@ -28,6 +28,34 @@ Calibration on the pinned tree (thorough tier, seeds 0, 1, 2; max over all cases
   harmonics 7.2e-15, addition theorem 2.8e-13 (relative to (2l+1)/4pi);
   cart->sph: integer lattice 1.7e-16, forward 8.9e-15, round trip 6.1e-15 (tolerance 1e-9).
   The 19 source-level mutants of selftest() are all reported (errors >= 1e-3 in the same units).
+
+Audit extension (spec/HarmonicsAudit.tla EXTENDS Harmonics; one TLC run decides the identities of both modules):
+ 5. structured angles emitted by the specification as exact pairs (multiple of pi, rational offset): polar angles
+    1e-9 .. 1e-3 away from both poles, i.e. just outside the pole cut |tan phi| < 1e-10 of the derivative routine
+    (class "threshold", judged against the D-trees, not against the zero convention), and angles up to 20 pi away from
+    the principal range, reflected and unreflected (class "far"); the high-degree passes get 1e-9 / 1e-7 as well.
+ 6. solid harmonics for every l_max < LTree, and for LTree < l <= 40 as SolidFactorTree (sqrt(4 pi/(2l+1)) r^l, degree as a
+    variable, 50 digits) times the library's own surface harmonics.
+ 7. convert_derivative_from_spherical_to_cartesian against GradTree = J diag(1/|J_.j|^2) d built from the D-derived Jacobian
+    of the parametrisation (TLC: chain rule, orthogonal frame, metric, and the two documented conventions, exactly on the
+    lattice): TLC's exact lattice cases, float arguments over nine decades of r, r = 0 and phi = 0.
+ 8. convert_cart_to_sph: homogeneity (SphHomogeneous) replayed with 2^300 and 2^-300 times TLC's integer points / centres,
+    signed zeros among the coordinates (range and Cart(Sph(p)) = p only), AtomGrid.convert_cartesian_to_spherical(points,
+    center) as a second route to the same conversion.
+ 9. the catalogue of 820 call forms (array type f8 / f4 / extended / int64, plain / strided / read-only / Fortran-ordered /
+    one array for both angles, 0 / 1 / 5 points, l_max as int / int64 / int32, centre as None / array / list / tuple / int
+    array, scalar types of the gradient conversion), each with the obligations returns, shape, value, unchanged (arguments),
+    repeatable (second call on the same objects); the observations are judged by TLC (FormJudged, FormsComplete, second run).
+Calibration of the new clauses (quick + thorough, seeds 0..5, same scaled units, tolerance 1e-9 unless said otherwise):
+  threshold / far classes: within the maxima above (recursion 2.2e-13, derivatives 1.5e-14); solid high-degree 6e-15;
+  gradient conversion: lattice 1.2e-16, floats 1.5e-16, conventions 1.4e-16 (scale max|d| max(1, 1/r, 1/(r |sin phi|)));
+  cart->sph scaled 1.7e-16, signed zeros 4.4e-16, AtomGrid route 1.7e-16;
+  float32 arrays (tolerance 1e-3 = TolExp of the specification; budget: 2^-24 per single-precision operation times
+  m |theta| <= 60): measured ylm 2.0e-7, scipy 2.0e-7, derivative 1.6e-7, solid 2.8e-7; wrong sign / row / factor >= 1e-1.
+  The 14 source-level mutants and 3 corruptions of the observation file in AUDIT_MUTANTS / JUDGE_CORRUPTIONS are all reported
+  by the clause they were written for.
+Known finding (known_findings.d/C08.json, proposal gen/proposals/C08-extended-precision-angles.diff): the two SciPy-based
+routines raise TypeError for extended-precision angle arrays (keys form:ylm_scipy:g:returns, form:dylm:g:returns).
 """
 from __future__ import annotations
 
@@ -46,6 +74,7 @@ from ..expr_eval import evaluate
 
 PROP = "C08"
 TOL = 1e-9
+WORKERS = 8
 _EM = None  # emission (per process)
 
 
@@ -54,22 +83,28 @@ def _scale(l):
 
 
 def _tlc(wd, tier, rep):
+    """One TLC run on spec/HarmonicsAudit.tla (= Harmonics.tla, unchanged, plus the audit kinds): all
+    identities are decided and both emissions (definition trees; forms / angles / gradient) are written."""
     ltree = 12 if tier == "thorough" else 8
-    cfg = wd / "MC_Harmonics_run.cfg"
-    base = (tlc.SPEC / "MC_Harmonics.cfg").read_text()
+    cfg = wd / "MC_HarmonicsAudit_run.cfg"
+    base = (tlc.SPEC / "MC_HarmonicsAudit.cfg").read_text()
     base = base.replace("LTree = 12", f"LTree = {ltree}")
     cfg.write_text(base)
-    res = tlc.run_tlc("Harmonics", cfg, wd, workers=16, timeout=900).require_ok("MC_Harmonics")
-    rep.tlc(res, "MC_Harmonics")
+    res = tlc.run_tlc("HarmonicsAudit", cfg, wd, workers=WORKERS, timeout=900).require_ok("MC_HarmonicsAudit")
+    rep.tlc(res, "MC_HarmonicsAudit")
     if res.status == "violation":
         st = tlc.last_state(res)
         rep.violation(f"model:{','.join(res.violated)}",
-                      f"TLC: identity {res.violated} fails in spec/Harmonics.tla; state {st}", st)
+                      f"TLC: identity {res.violated} fails in spec/Harmonics.tla / HarmonicsAudit.tla; state {st}", st)
     f = wd / "harmonics_trees.json"
-    if not f.exists():
-        raise tlc.MachineryError("Harmonics.tla did not emit harmonics_trees.json\n" + res.stdout[-2000:])
+    g = wd / "harmonics_audit.json"
+    if not f.exists() or not g.exists():
+        raise tlc.MachineryError("HarmonicsAudit.tla did not emit its JSON files\n" + res.stdout[-2000:])
     with open(f) as fh:
-        return json.load(fh), res
+        em = json.load(fh)
+    with open(g) as fh:
+        em["audit"] = json.load(fh)
+    return em, res
 
 
 def emission(wd_name="C08-emit", ltree=12, lexact=4):
@@ -97,14 +132,16 @@ def _init(path):
 
 
 def _expect(job):
-    """Evaluate every tree at the given (theta, phi, r) floats in 50-digit arithmetic."""
+    """Evaluate every tree (of the first `lim` rows) at the given (theta, phi, r) floats in 50-digit arithmetic."""
     import mpmath as mp
-    idx, pts = job
-    nrows = len(_EM["trees"])
+    idx, pts = job[0], job[1]
+    nrows = len(_EM["trees"]) if len(job) < 3 else int(job[2])
     out = {k: np.zeros((nrows, len(pts))) for k in ("y", "dtheta", "dphi", "solid")}
     for j, (th, ph, r) in enumerate(pts):
         env = {"theta": mp.mpf(th), "phi": mp.mpf(ph), "r": mp.mpf(r)}
         for t in _EM["trees"]:
+            if int(t["row"]) >= nrows:
+                continue
             for k in out:
                 out[k][int(t["row"]), j] = float(evaluate(t[k], env, "mp"))
     return idx, out
@@ -186,7 +223,23 @@ def _angles(em, tier, rng):
     for i in range(3 if tier == "quick" else 16):
         base = float(rng.uniform(0.05, math.pi - 0.05))
         out.append(("reflected", float(rng.uniform(-7, 7)), -base if i % 2 else math.pi + base, 1.0))
+    # structured angles of spec/HarmonicsAudit.tla: polar angles just outside the pole cut ("threshold") and angles
+    # many periods away from the principal range ("far"), each pim * pi + off rounded once to a float
+    extra = em["audit"]["angles"]
+    if tier != "thorough":
+        # quick: the threshold angles nearest to the poles (1e-9, 1e-7; 1e-3 is the existing "nearpole" class), a third
+        # of the far ones
+        extra = [a for i, a in enumerate(extra)
+                 if (a["class"] == "threshold" and a["phi"]["off"][1] >= 10 ** 7) or (a["class"] == "far" and i % 3 == 0)]
+    for a in extra:
+        out.append((a["class"], _angle_float(a["theta"]), _angle_float(a["phi"]), a["r"][0] / a["r"][1]))
     return out
+
+
+def _angle_float(a):
+    """pim * pi + off (exact pair of the specification) -> nearest float."""
+    import mpmath as mp
+    return float(mp.mpf(int(a["pim"])) * mp.pi + mp.mpf(int(a["off"][0])) / mp.mpf(int(a["off"][1])))
 
 
 # ---------------------------------------------------------------------------------------------
@@ -265,7 +318,7 @@ def run(tier: str) -> int:
     pts = [(a[1], a[2], a[3]) for a in angs]
     jobs = [(i, pts[i::32]) for i in range(32) if pts[i::32]]
     exp = {k: np.zeros((nrows, len(pts))) for k in ("y", "dtheta", "dphi", "solid")}
-    with mp_.get_context("fork").Pool(16, initializer=_init, initargs=(str(wd / "harmonics_trees.json"),)) as pool:
+    with mp_.get_context("fork").Pool(WORKERS, initializer=_init, initargs=(str(wd / "harmonics_trees.json"),)) as pool:
         for i, out in pool.imap_unordered(_expect, jobs):
             for k in exp:
                 exp[k][:, i::32] = out[k]
@@ -376,6 +429,19 @@ def run(tier: str) -> int:
                 rep.evaluated(got.size, (func, "lmax", lm))
         except Exception as e:
             rep.violation(f"{func}:l_max={lm}:exception", f"{func} raised {type(e).__name__}: {e}", {"l_max": lm})
+        func = "solid_harmonics"
+        try:
+            rr = np.array([angs[i][3] for i in sel])
+            got = _call(gu.solid_harmonics, lm, np.stack([rr, th, ph], axis=1))
+            if got.shape != (n, len(sel)):
+                rep.violation(f"{func}:shape", f"{func}({lm}, ...) returned shape {got.shape}", {"l_max": lm})
+            else:
+                ssc = np.where((ls[:n, None] == 0) | (rr[None, :] == 0), 1.0, np.maximum(rr[None, :], 1e-300) ** ls[:n, None])
+                J.cmp(func, f"l_max={lm}", got, exp["solid"][:n][:, sel], ssc,
+                      lambda j, lm=lm, rr=rr: {"l_max": lm, "theta": float(th[j]), "phi": float(ph[j]), "r": float(rr[j])})
+                rep.evaluated(got.size, (func, "lmax", lm))
+        except Exception as e:
+            rep.violation(f"{func}:l_max={lm}:exception", f"{func} raised {type(e).__name__}: {e}", {"l_max": lm})
     for rec in J.bad.values():
         if rec["case"] is not None and "lm" not in rec["case"]:
             rec["case"]["lm"] = list(_lm_of_row(rec["case"]["row"]))
@@ -383,7 +449,7 @@ def run(tier: str) -> int:
     # ---- high degrees: relational checks + calibrated evaluator ----------------------------------
     lhigh = 80 if tier == "thorough" else 40
     nh = 2000 if tier == "thorough" else 160
-    _high(rep, J, gu, lt, lhigh, nh, rng)
+    _high(rep, J, gu, lt, lhigh, nh, rng, em["audit"]["solidfactor"])
     # "for every maximum degree": one pass far beyond the degrees the test-suite reaches (its maximum is
     # l_max = 100), few angles incl. the structured ones (equator, near-pole, poles); a float64
     # accumulator in the recursion overflows near l = 150 and would go unnoticed below that
@@ -393,6 +459,11 @@ def run(tier: str) -> int:
 
     # ---- cart -> sph ----------------------------------------------------------------------------
     _cart(rep, gu, em, tier, rng)
+    _cart_extra(rep, gu, em, tier, rng)
+
+    # ---- conversion of derivatives, call forms (spec/HarmonicsAudit.tla) --------------------------
+    _grad(rep, gu, em, tier, rng)
+    _forms(rep, gu, em, wd, tier)
 
     J.flush()
     rep.set("max_scaled_deviation", {k: v for k, v in sorted(J.worst.items())})
@@ -412,7 +483,7 @@ def run(tier: str) -> int:
     return rep.finish()
 
 
-def _high(rep, J, gu, lt, lhigh, nh, rng):
+def _high(rep, J, gu, lt, lhigh, nh, rng, solidfactor=None):
     """lt < l <= lhigh: addition theorem, agreement of both implementations, calibrated evaluator."""
     chunk = 200
     done = 0
@@ -424,6 +495,8 @@ def _high(rep, J, gu, lt, lhigh, nh, rng):
         ph = rng.uniform(1e-2, math.pi - 1e-2, n) + 2 * math.pi * rng.integers(-1, 2, n)
         if done == 0:  # structured angles
             ph[:6] = (math.pi / 2, 1e-3, 0.05, math.pi - 1e-3, 0.0, math.pi)
+            if n >= 10:   # just outside the pole cut of the derivative routine (Eps of spec/HarmonicsAudit.tla)
+                ph[6:10] = (1e-9, math.pi - 1e-7, 2 * math.pi + 1e-7, -1e-9)
         done += n
 
         def case(j, th=th, ph=ph):
@@ -470,6 +543,27 @@ def _high(rep, J, gu, lt, lhigh, nh, rng):
                 rep.evaluated(d.size, ("high", "derivative"))
             except Exception as e:
                 rep.violation("derivative:high-degree:exception", f"raised {type(e).__name__}: {e}", case(0))
+        # solid harmonics beyond the degrees of the trees: sqrt(4 pi/(2l+1)) r^l (SolidFactorTree of the specification,
+        # evaluated in 50 digits per degree and radius) times the library's own surface harmonics judged above
+        if solidfactor is not None and (lhigh <= 40 or done <= chunk):
+            import mpmath as mp
+            ld = min(lhigh, 40)
+            ns = min(n, 24)
+            nr = (ld + 1) ** 2
+            rr = np.concatenate([[1.0, 0.5, 2.0, 1e-3], rng.uniform(0.2, 3.0, ns - 4)])
+            fac = np.array([[float(evaluate(solidfactor, {"l": mp.mpf(l), "r": mp.mpf(float(r))}, "mp")) for r in rr]
+                            for l in range(ld + 1)])
+            try:
+                so = _call(gu.solid_harmonics, ld, np.stack([rr, th[:ns], ph[:ns]], axis=1))
+                if so.shape != (nr, ns):
+                    rep.violation("solid_harmonics:shape", f"solid_harmonics({ld}, ...) returned shape {so.shape}", {"l_max": ld})
+                else:
+                    want = fac[ls[:nr]] * a[:nr, :ns]
+                    J.cmp("solid_harmonics", "high-degree", so, want, sc[:nr] * fac[ls[:nr]],
+                          lambda j: {**case(j), "r": float(rr[j]), "l_max": ld})
+                    rep.evaluated(so.size, ("high", "solid"))
+            except Exception as e:
+                rep.violation("solid_harmonics:high-degree:exception", f"raised {type(e).__name__}: {e}", case(0))
     for rec in J.bad.values():
         if rec["case"] is not None and "lm" not in rec["case"]:
             rec["case"]["lm"] = list(_lm_of_row(rec["case"]["row"]))
@@ -600,6 +694,455 @@ def _cart(rep, gu, em, tier, rng):
 
 
 # ---------------------------------------------------------------------------------------------
+# call forms (spec/HarmonicsAudit.tla section 4): replay, observations, judged by TLC
+
+_NP = {"f8": np.float64, "f4": np.float32, "g": np.longdouble, "i8": np.int64}
+_LF = {"int": int, "int64": np.int64, "int32": np.int32}
+_FUNC = {"ylm": "generate_real_spherical_harmonics", "ylm_scipy": "generate_real_spherical_harmonics_scipy",
+         "dylm": "generate_derivative_real_spherical_harmonics", "solid": "solid_harmonics",
+         "cart": "convert_cart_to_sph", "grad": "convert_derivative_from_spherical_to_cartesian"}
+_OBL = ("returns", "shape", "value", "unchanged", "repeatable")
+_CORRUPT = None   # selftest hook: function(list of observation records) -> list written for the judge
+
+
+def _form_pointsets(audit):
+    """name -> float64 array (n, 3) of (theta, phi, r): the VALUES the library sees for each array type."""
+    out = {}
+    for dt in ("f8", "f4", "i8"):
+        src = audit["formpoints"]["int" if dt == "i8" else "real"]
+        a = np.array([[q[0] / q[1] for q in pt] for pt in src], dtype=float)
+        a = a.astype(_NP[dt]).astype(float)
+        out[dt] = a
+        b = a.copy()
+        b[:, 0] = b[:, 1]
+        out[dt + ":aliased"] = b
+    out["g"], out["g:aliased"] = out["f8"], out["f8:aliased"]      # every double is an extended-precision number
+    return out
+
+
+def _layout(base, layout):
+    """base: (n, k) array of the target dtype -> the array object handed to the library."""
+    n, k = base.shape
+    if layout == "strided":
+        big = np.zeros((2 * n, k + 2), dtype=base.dtype)
+        big[::2, 1:k + 1] = base
+        return big[::2, 1:k + 1]
+    if layout == "fortran":
+        return np.asfortranarray(base)
+    a = np.ascontiguousarray(base).copy()
+    if layout == "readonly":
+        a.setflags(write=False)
+    return a
+
+
+def _count(a, count):
+    return a[:0] if count == "none" else a[:1] if count == "one" else a
+
+
+def _same(a, b):
+    a, b = np.asarray(a), np.asarray(b)
+    return a.shape == b.shape and a.dtype == b.dtype and bool(np.array_equal(a, b, equal_nan=True))
+
+
+def _observe(call, held, shape, value):
+    """call(): the library call on the held objects; value(result) -> (ok, worst deviation)."""
+    o = {k: True for k in _OBL}
+    o["detail"] = ""
+    o["nvals"] = 0
+    o["dev"] = 0.0
+    before = [np.array(h, copy=True) for h in held]
+    try:
+        with warnings.catch_warnings():
+            warnings.simplefilter("ignore")
+            with np.errstate(all="ignore"):
+                g1 = np.asarray(call())
+    except Exception as e:
+        o["returns"] = False
+        o["detail"] = f"raised {type(e).__name__}: {str(e)[:160]}"
+        return o
+    if not all(_same(h, b) for h, b in zip(held, before)):
+        o["unchanged"] = False
+        o["detail"] = "an argument array was modified by the call"
+    try:
+        with warnings.catch_warnings():
+            warnings.simplefilter("ignore")
+            with np.errstate(all="ignore"):
+                g2 = np.asarray(call())
+        if not _same(g1, g2):
+            o["repeatable"] = False
+            o["detail"] = o["detail"] or "the second call with the same objects returned something else"
+    except Exception as e:
+        o["repeatable"] = False
+        o["detail"] = o["detail"] or f"second call raised {type(e).__name__}: {str(e)[:160]}"
+    if g1.shape != tuple(shape):
+        o["shape"] = False
+        o["detail"] = o["detail"] or f"shape {g1.shape}, expected {tuple(shape)}"
+        return o
+    o["nvals"] = int(g1.size)
+    ok, dev = value(np.asarray(g1, dtype=float))
+    o["dev"] = float(dev)
+    if not ok:
+        o["value"] = False
+        o["detail"] = o["detail"] or f"deviates from the definition by {dev:.3e} (scaled)"
+    return o
+
+
+def _sph_dev(got, items):
+    """convert_cart_to_sph output rows against TLC's exact conversions (cos / sin of the angles, range)."""
+    worst = 0.0
+    for s, (r, th, ph) in zip(items, got):
+        e = [abs(r - s["r"]), abs(math.cos(th) - s["ct"][0] / s["ct"][1]), abs(math.sin(th) - s["st"][0] / s["st"][1]),
+             abs(math.cos(ph) - s["cp"][0] / s["cp"][1]), abs(math.sin(ph) - s["sp"][0] / s["sp"][1])]
+        d = max(e)
+        if not ((r >= 0) and (-math.pi <= th <= math.pi) and (0 <= ph <= math.pi)) or not math.isfinite(d):
+            d = float("inf")
+        worst = max(worst, d)
+    return worst
+
+
+def _cart_items(em, c):
+    """A few of TLC's integer points about centre c: the centre itself, both half axes, generic points."""
+    items = sorted((s for s in em["sph"] if tuple(s["c"]) == tuple(c)), key=lambda s: s["p"])
+    origin = [s for s in items if s["r"] == 0][:1]
+    zneg = [s for s in items if s["r"] > 0 and s["sp"][0] == 0 and s["cp"][0] < 0][:1]
+    zpos = [s for s in items if s["r"] > 0 and s["sp"][0] == 0 and s["cp"][0] > 0][:1]
+    gen = [s for s in items if s["sp"][0] != 0]
+    gen = gen[:: max(1, len(gen) // 4)][:4]
+    return gen[:1] + origin + zneg + gen[1:] + zpos
+
+
+def _forms(rep, gu, em, wd, tier):
+    import mpmath as mp
+    audit = em["audit"]
+    lf = int(audit["lform"])
+    nrows = (lf + 1) ** 2
+    psets = _form_pointsets(audit)
+    names = sorted(psets)
+    # expected values of the trees at the values of every point set
+    jobs = [(i, [tuple(map(float, row)) for row in psets[nm]], nrows) for i, nm in enumerate(names)]
+    exp = {}
+    with mp_.get_context("fork").Pool(min(WORKERS, len(jobs)), initializer=_init,
+                                      initargs=(str(wd / "harmonics_trees.json"),)) as pool:
+        for i, out in pool.imap_unordered(_expect, jobs):
+            exp[names[i]] = out
+    ls = np.array([_lm_of_row(r)[0] for r in range(nrows)])
+    sc = np.array([_scale(l) for l in ls])[:, None]
+    dsc = sc * (ls[:, None] + 1)
+    gtrees = audit["grad"]["general"]
+    obs = []
+    f4dev = {}
+    for rec in audit["forms"]:
+        f = rec["form"]
+        tol = 10.0 ** (-int(rec["tolexp"]))
+        func, dt, lay, cnt, extra = f["func"], f["dtype"], f["layout"], f["count"], f["extra"]
+        fn = getattr(gu, _FUNC[func])
+        if func in ("ylm", "ylm_scipy", "dylm"):
+            key = dt + (":aliased" if lay == "aliased" else "")
+            vals = psets[key]
+            n = {"none": 0, "one": 1, "many": len(vals)}[cnt]
+            base = vals[:, :2].astype(_NP[dt])
+            if lay == "aliased":
+                a = _count(_layout(base[:, 1:2], "plain")[:, 0], cnt)
+                th = ph = a
+                held = [a]
+            elif lay == "strided":
+                v = _layout(base, "strided")
+                th, ph = _count(v[:, 0], cnt), _count(v[:, 1], cnt)
+                held = [th, ph]
+            else:
+                th = _count(_layout(base[:, 0:1], lay)[:, 0], cnt)
+                ph = _count(_layout(base[:, 1:2], lay)[:, 0], cnt)
+                held = [th, ph]
+            lmax = _LF[extra](lf)
+            e = exp[key]
+            if func == "dylm":
+                want = np.stack([e["dtheta"][:, :n], e["dphi"][:, :n]])
+                scale = dsc[None]
+                shape = (2, nrows, n)
+            else:
+                want, scale, shape = e["y"][:, :n], sc, (nrows, n)
+
+            def value(g, want=want, scale=scale, tol=tol):
+                if g.size == 0:
+                    return True, 0.0
+                dev = np.abs(g - want) / scale
+                dev = np.where(np.isfinite(g), dev, np.inf)
+                return bool(dev.max() <= tol), float(dev.max())
+            o = _observe(lambda: fn(lmax, th, ph), held, shape, value)
+        elif func == "solid":
+            vals = psets[dt]
+            n = {"none": 0, "one": 1, "many": len(vals)}[cnt]
+            base = vals[:, [2, 0, 1]].astype(_NP[dt])          # (r, theta, phi)
+            pts = _count(_layout(base, lay), cnt)
+            lmax = _LF[extra](lf)
+            rr = vals[:n, 2]
+            ssc = np.where((ls[:, None] == 0) | (rr[None, :] == 0), 1.0, np.maximum(rr[None, :], 1e-300) ** ls[:, None])
+            want = exp[dt]["solid"][:, :n]
+
+            def value(g, want=want, ssc=ssc, tol=tol):
+                if g.size == 0:
+                    return True, 0.0
+                dev = np.abs(g - want) / ssc
+                dev = np.where(np.isfinite(g), dev, np.inf)
+                return bool(dev.max() <= tol), float(dev.max())
+            o = _observe(lambda: fn(lmax, pts), [pts], (nrows, n), value)
+        elif func == "cart":
+            c = (0, 0, 0) if extra == "none" else (1, -2, 3)
+            items = _cart_items(em, c)
+            n = {"none": 0, "one": 1, "many": len(items)}[cnt]
+            base = np.array([s["p"] for s in items], dtype=float).astype(_NP[dt])
+            pts = _count(_layout(base, lay), cnt)
+            cen = {"none": None, "array": np.array(c, dtype=float), "list": [float(x) for x in c],
+                   "tuple": tuple(int(x) for x in c), "intarray": np.array(c, dtype=np.int64)}[extra]
+            held = [pts] + ([cen] if isinstance(cen, np.ndarray) else [])
+
+            def value(g, items=items[:n], tol=tol):
+                if g.size == 0:
+                    return True, 0.0
+                d = _sph_dev(g, items)
+                return d <= tol, d
+            o = _observe(lambda: fn(pts, cen), held, (n, 3), value)
+        else:   # grad: scalar arguments
+            q = audit["gradscalar"]["int" if extra == "int" else "real"]
+            fl = [x[0] / x[1] for x in q]
+            args = {"float": [float(x) for x in fl], "npfloat": [np.float64(x) for x in fl],
+                    "int": [int(x) for x in fl], "zerod": [np.array(x) for x in fl]}[extra]
+            env = dict(zip(("dr", "dtheta", "dphi", "r", "theta", "phi"), (mp.mpf(x) for x in fl)))
+            env.update({"cx": 0, "cy": 0, "cz": 0})
+            want = np.array([float(evaluate(t, env, "mp")) for t in gtrees])
+            gs = max(abs(x) for x in fl[:3]) * max(1.0, 1.0 / fl[3], 1.0 / abs(fl[3] * math.sin(fl[5])))
+
+            def value(g, want=want, gs=gs, tol=tol):
+                dev = np.abs(g - want) / gs
+                dev = np.where(np.isfinite(g), dev, np.inf)
+                return bool(dev.max() <= tol), float(dev.max())
+            o = _observe(lambda: fn(*args), [a for a in args if isinstance(a, np.ndarray)], (3,), value)
+        if dt == "f4" and o["returns"] and o["shape"]:
+            f4dev[func] = max(f4dev.get(func, 0.0), o["dev"] if math.isfinite(o["dev"]) else 0.0)
+        o["form"] = f
+        obs.append(o)
+        rep.evaluated(max(1, o["nvals"]), ("form", func, dt, lay, cnt, extra))
+    written = [{k: o[k] for k in _OBL + ("form", "nvals")} for o in obs]
+    if _CORRUPT is not None:      # selftest of the judge: tamper with the observation file only
+        written = _CORRUPT(written)
+    with open(wd / "harmonics_obs.json", "w") as fh:
+        json.dump({"obs": written}, fh)
+    res = tlc.run_tlc("HarmonicsAudit", "Judge_HarmonicsAudit.cfg", wd, workers=1, timeout=600).require_ok("Judge_HarmonicsAudit")
+    rep.tlc(res, "Judge_HarmonicsAudit")
+    if res.status == "violation":
+        rep.violation(f"forms:{','.join(res.violated)}", f"TLC: {res.violated} - the replay did not cover the catalogue of call forms "
+                      f"of spec/HarmonicsAudit.tla ({len(obs)} observations)", {"observations": len(obs)})
+    fails = tlc.tagged(res.stdout, "FORMFAIL")
+    flagged = {}
+    for item in fails:
+        idx = int(item[1]) - 1
+        for ob in sorted(item[3]):
+            flagged.setdefault(idx, []).append(ob)
+    mine = {i: sorted(k for k in _OBL if not o[k]) for i, o in enumerate(obs) if not all(o[k] for k in _OBL)}
+    if _CORRUPT is None and {i: sorted(v) for i, v in flagged.items() if i < len(obs)} != mine:
+        raise tlc.MachineryError(f"FormJudged and the harness disagree about the failing forms: {flagged} vs {mine}")
+    flagged = {i: v for i, v in flagged.items() if i < len(obs)}
+    groups = {}
+    for i, obl in flagged.items():
+        f = obs[i]["form"]
+        for ob in obl:
+            groups.setdefault((f["func"], f["dtype"], ob), []).append(i)
+    for (func, dt, ob), idxs in sorted(groups.items()):
+        first = obs[idxs[0]]
+        lst = ", ".join(f"{obs[i]['form']['layout']}/{obs[i]['form']['count']}/{obs[i]['form']['extra']}" for i in idxs[:6])
+        rep.violation(f"form:{func}:{dt}:{ob}",
+                      f"{_FUNC[func]} with {np.dtype(_NP[dt]).name} arrays: obligation '{ob}' of spec/HarmonicsAudit.tla fails for "
+                      f"{len(idxs)} call form(s) (layout/count/{'centre' if func == 'cart' else 'l_max type'}: {lst}"
+                      f"{', ...' if len(idxs) > 6 else ''}); first: {first['detail']}",
+                      {"func": "form", "form": first["form"], "obligation": ob, "detail": first["detail"]})
+    rep.set("call_forms", {"judged": len(obs), "failing": len(flagged), "l_max": lf,
+                           "max_scaled_deviation_float32": {k: v for k, v in sorted(f4dev.items())}})
+
+
+# ---------------------------------------------------------------------------------------------
+# conversion of derivatives (spec/HarmonicsAudit.tla section 1)
+
+def _grad(rep, gu, em, tier, rng):
+    import mpmath as mp
+    audit = em["audit"]
+    f = gu.convert_derivative_from_spherical_to_cartesian
+    name = "convert_derivative_from_spherical_to_cartesian"
+    worst = {"lattice": 0.0, "float": 0.0, "conventions": 0.0}
+    bad = {}
+
+    def call(d, r, th, ph):
+        with warnings.catch_warnings():
+            warnings.simplefilter("ignore")
+            with np.errstate(all="ignore"):
+                return np.asarray(f(d[0], d[1], d[2], r, th, ph), dtype=float)
+
+    def judge(cls, kind, got, want, gs, case):
+        dev = np.abs(got - want) / gs if got.shape == (3,) else np.array([np.inf])
+        dev = float(np.where(np.isfinite(got), dev, np.inf).max()) if got.shape == (3,) else float("inf")
+        rep.evaluated(3, (name, cls, kind))
+        if dev <= TOL:
+            worst[cls] = max(worst[cls], dev)
+            return
+        rec = bad.setdefault((cls, kind), {"n": 0, "worst": 0.0, "case": None})
+        rec["n"] += 1
+        if dev > rec["worst"]:
+            rec["worst"] = dev
+            rec["case"] = dict(case, func=name, kind=kind, observed=got.tolist(), expected=[float(x) for x in want],
+                               deviation_scaled=dev)
+
+    # (a) TLC's exact cases on the lattice (rational r, integer derivative vectors, exact rational gradient)
+    cases = audit["gradcases"] if tier == "thorough" else audit["gradcases"][:: 2]
+    for c in cases:
+        ph = 0.0 if c["kind"] == "phi0" else math.atan2(c["sp"][0] / c["sp"][1], c["cp"][0] / c["cp"][1])
+        th = math.atan2(c["st"][0] / c["st"][1], c["ct"][0] / c["ct"][1])
+        r = c["r"][0] / c["r"][1]
+        d = [float(x) for x in c["d"]]
+        want = np.array([g[0] / g[1] for g in c["g"]])
+        md = max(abs(x) for x in d)
+        gs = md if c["kind"] == "r0" else md * max(1.0, 1.0 / r) if c["kind"] == "phi0" else \
+            md * max(1.0, 1.0 / r, 1.0 / abs(r * math.sin(ph)))
+        try:
+            got = call(d, r, th, ph)
+        except Exception as e:
+            rep.violation(f"{name}:{c['kind']}:exception", f"raised {type(e).__name__}: {e}", {"d": d, "r": r, "theta": th, "phi": ph})
+            continue
+        judge("lattice", c["kind"], got, want, gs, {"d": d, "r": r, "theta": th, "phi": ph})
+    # (b) float arguments against the trees (50 digits): regular points, radii over nine decades
+    trees = audit["grad"]
+    n = 40 if tier == "quick" else 400
+    for i in range(n):
+        r = float(10.0 ** rng.uniform(-6, 3))
+        th = float(rng.uniform(-7, 7))
+        ph = float(rng.uniform(1e-3, math.pi - 1e-3)) * (1 if i % 4 else -1) + 2 * math.pi * (0, 1, -1)[i % 3]
+        d = [float(x) for x in rng.normal(size=3)]
+        kind = "general"
+        if i % 10 == 7:
+            r, kind = 0.0, "r0"
+        elif i % 10 == 9:
+            ph, kind = 0.0, "phi0"
+        env = {"dr": mp.mpf(d[0]), "dtheta": mp.mpf(d[1]), "dphi": mp.mpf(d[2]), "r": mp.mpf(r), "theta": mp.mpf(th),
+               "phi": mp.mpf(ph), "cx": 0, "cy": 0, "cz": 0}
+        want = np.array([float(evaluate(t, env, "mp")) for t in trees[kind]])
+        md = max(abs(x) for x in d)
+        gs = md if kind == "r0" else md * max(1.0, 1.0 / r) if kind == "phi0" else md * max(1.0, 1.0 / r, 1.0 / abs(r * math.sin(ph)))
+        try:
+            got = call(d, r, th, ph)
+        except Exception as e:
+            rep.violation(f"{name}:{kind}:exception", f"raised {type(e).__name__}: {e}", {"d": d, "r": r, "theta": th, "phi": ph})
+            continue
+        judge("float" if kind == "general" else "conventions", kind, got, want, gs, {"d": d, "r": r, "theta": th, "phi": ph})
+    for (cls, kind), rec in sorted(bad.items()):
+        c = rec["case"]
+        rep.violation(f"{name}:{kind}:{cls}",
+                      f"{name}(d={c['d']}, r={c['r']}, theta={c['theta']}, phi={c['phi']}) = {c['observed']}; the chain rule "
+                      f"through the Jacobian of the parametrisation (GradTree, spec/HarmonicsAudit.tla; kind '{kind}') gives "
+                      f"{c['expected']}: {rec['n']} case(s) beyond {TOL:g}, worst {rec['worst']:.3e} (scaled)", c)
+    rep.set("gradient_conversion_max_dev", worst)
+
+
+# ---------------------------------------------------------------------------------------------
+# convert_cart_to_sph: homogeneity (very large / very small coordinates), signed zeros, AtomGrid route
+
+def _cart_extra(rep, gu, em, tier, rng):
+    import mpmath as mp
+    worst = {"scaled": 0.0, "signed-zero": 0.0, "atomgrid-route": 0.0}
+    items = em["sph"] if tier == "thorough" else em["sph"][::4]
+    by_c = {}
+    for s in items:
+        by_c.setdefault(tuple(s["c"]), []).append(s)
+    # Sph(t p; t c) = (t r, theta, phi) (SphHomogeneous); t a power of two, so t p, t c and t r are exact
+    for k in (300, -300):
+        t = 2.0 ** k
+        for c, its in by_c.items():
+            P = np.array([s["p"] for s in its], dtype=float) * t
+            cen = np.array(c, dtype=float) * t
+            try:
+                with warnings.catch_warnings():
+                    warnings.simplefilter("ignore")
+                    with np.errstate(all="ignore"):
+                        got = np.asarray(gu.convert_cart_to_sph(P, cen), dtype=float)
+            except Exception as e:
+                rep.violation(f"convert_cart_to_sph:scaled-2^{k}:exception", f"raised {type(e).__name__}: {e}", {"c": list(c), "k": k})
+                continue
+            if got.shape != (len(its), 3):
+                rep.violation("convert_cart_to_sph:shape", f"shape {got.shape}", {"c": list(c), "k": k})
+                continue
+            got[:, 0] /= t
+            for s, row in zip(its, got):
+                d = _sph_dev([row], [s])
+                rep.evaluated(1, ("cart", "scaled", k, tuple(s["p"]), c))
+                if not d <= 1e-9:
+                    kind = "origin" if s["r"] == 0 else "z-axis" if s["sp"][0] == 0 else "generic"
+                    rep.violation(f"convert_cart_to_sph:scaled-2^{k}:{kind}-point",
+                                  f"convert_cart_to_sph(2^{k} * {s['p']}, center = 2^{k} * {list(c)}) = (2^{k} * {row[0]}, {row[1]}, {row[2]}); "
+                                  f"specification (homogeneity): r = 2^{k} * {s['r']}, cos/sin theta={s['ct']},{s['st']}, "
+                                  f"cos/sin phi={s['cp']},{s['sp']}", {"func": "convert_cart_to_sph[scaled]", "p": s["p"], "c": list(c), "k": k})
+                else:
+                    worst["scaled"] = max(worst["scaled"], d)
+    # signed zeros among the coordinates: still a point of space - range and Cart(Sph(p)) = p (no convention on theta)
+    cart = em["cart"]
+    zs = (0.0, -0.0)
+    pts = [(x, y, z) for x in zs for y in zs for z in (1.5, -2.0, 0.0, -0.0)] + [(-0.0, 2.0, 1.0), (3.0, -0.0, -1.0), (-0.0, -0.0, -0.0)]
+    for p in pts:
+        for c in ((0.0, 0.0, 0.0), (1.0, -2.0, 3.0)):
+            P = np.array([[p[0] + c[0], p[1] + c[1], p[2] + c[2]]]) if c != (0.0, 0.0, 0.0) else np.array([p])
+            try:
+                with np.errstate(all="ignore"):
+                    got = np.asarray(gu.convert_cart_to_sph(P, np.array(c)), dtype=float)[0]
+            except Exception as e:
+                rep.violation("convert_cart_to_sph:signed-zero:exception", f"raised {type(e).__name__}: {e}", {"p": P.tolist(), "c": list(c)})
+                continue
+            rep.evaluated(1, ("cart", "signed-zero", str(p), c))
+            if np.all(np.isfinite(got)):
+                env = {"r": mp.mpf(got[0]), "theta": mp.mpf(got[1]), "phi": mp.mpf(got[2]),
+                       "cx": mp.mpf(c[0]), "cy": mp.mpf(c[1]), "cz": mp.mpf(c[2])}
+                back = np.array([float(evaluate(t, env, "mp")) for t in cart])
+                dev = float(np.abs(back - P[0]).max())
+            else:
+                dev = float("inf")
+            inrange = (got[0] >= 0) and (-math.pi <= got[1] <= math.pi) and (0 <= got[2] <= math.pi)
+            if not (dev <= 1e-9 and inrange):
+                rep.violation("convert_cart_to_sph:signed-zero",
+                              f"convert_cart_to_sph({P.tolist()}, center={list(c)}) = {got.tolist()}: Cart of it differs from the point by "
+                              f"{dev:.3e} or it leaves r >= 0, theta in [-pi, pi], phi in [0, pi]",
+                              {"func": "convert_cart_to_sph[signed-zero]", "p": P[0].tolist(), "c": list(c)})
+            else:
+                worst["signed-zero"] = max(worst["signed-zero"], dev)
+    # the same conversion reached through AtomGrid.convert_cartesian_to_spherical(points, center) (explicit points:
+    # the method documents the same result), also for one point given as a flat array of three numbers
+    try:
+        from grid.atomgrid import AtomGrid
+        from grid.onedgrid import GaussLegendre
+        from grid.rtransform import BeckeRTransform
+        ag = AtomGrid(BeckeRTransform(0.0, 1.5).transform_1d_grid(GaussLegendre(4)), degrees=[3], center=np.array([0.3, -0.2, 0.1]))
+    except Exception as e:  # cannot build the carrier grid: not this property's business
+        ag = None
+        rep.set("atomgrid_route", f"skipped: {type(e).__name__}: {e}")
+    if ag is not None:
+        for c, its in by_c.items():
+            its = its[:12]
+            P = np.array([s["p"] for s in its], dtype=float)
+            try:
+                got = np.asarray(ag.convert_cartesian_to_spherical(P, np.array(c, dtype=float)), dtype=float)
+                one = np.asarray(ag.convert_cartesian_to_spherical(P[0].copy(), np.array(c, dtype=float)), dtype=float)
+            except Exception as e:
+                rep.violation("convert_cart_to_sph:atomgrid-route:exception", f"AtomGrid.convert_cartesian_to_spherical raised "
+                              f"{type(e).__name__}: {e}", {"c": list(c)})
+                continue
+            d = _sph_dev(got, its) if got.shape == (len(its), 3) else float("inf")
+            d1 = _sph_dev(one, its[:1]) if one.shape == (1, 3) else float("inf")
+            rep.evaluated(len(its) + 1, ("cart", "atomgrid-route", c))
+            if not max(d, d1) <= 1e-9:
+                rep.violation("convert_cart_to_sph:atomgrid-route",
+                              f"AtomGrid.convert_cartesian_to_spherical(points, center={list(c)}) differs from the specification's "
+                              f"conversion of the same points by {max(d, d1):.3e} (shapes {got.shape}, {one.shape})",
+                              {"func": "convert_cart_to_sph[atomgrid-route]", "c": list(c), "p": its[0]["p"]})
+            else:
+                worst["atomgrid-route"] = max(worst["atomgrid-route"], d, d1)
+    rep.set("cart_to_sph_extra_max_dev", worst)
+
+
+# ---------------------------------------------------------------------------------------------
 
 def replay(path: str) -> int:
     import grid.utils as gu
@@ -634,9 +1177,20 @@ def replay(path: str) -> int:
 # sensitivity: source-level mutants of grid.utils, applied in-process
 
 def _mutant(name, old, new, count=1):
-    """Return (restore, ok): re-executes the source of grid.utils.<name> with one textual edit."""
+    """Return restore(): re-executes the source of grid.utils.<name> (or of the method AtomGrid.<name> when name
+    starts with "AtomGrid.") with one textual edit."""
     import grid.utils as gu
     import grid.atomgrid as ag
+    if name.startswith("AtomGrid."):
+        meth = name.split(".", 1)[1]
+        src = textwrap.dedent(inspect.getsource(getattr(ag.AtomGrid, meth)))
+        if src.count(old) < 1:
+            raise tlc.MachineryError(f"mutant pattern not found in {name}: {old!r}")
+        ns = dict(ag.__dict__)
+        exec(compile(src.replace(old, new, count), f"<mutant {name}>", "exec"), ns)
+        saved_m = ag.AtomGrid.__dict__[meth]
+        setattr(ag.AtomGrid, meth, ns[meth])
+        return lambda: setattr(ag.AtomGrid, meth, saved_m)
     src = textwrap.dedent(inspect.getsource(getattr(gu, name)))
     if src.count(old) < 1:
         raise tlc.MachineryError(f"mutant pattern not found in {name}: {old!r}")
@@ -702,23 +1256,102 @@ MUTANTS = [
 ]
 
 
+# mutants for the clauses of spec/HarmonicsAudit.tla; the third element of `expect` names a key prefix that must be among
+# the reported violations (the clause the mutant was written for)
+AUDIT_MUTANTS = [
+    ("derivative-pole-cut-1e-6", "generate_derivative_real_spherical_harmonics",
+     "cot_tangent[np.abs(np.tan(phi)) < 1e-10] = 0.0", "cot_tangent[np.abs(np.tan(phi)) < 1e-6] = 0.0",
+     "generate_derivative_real_spherical_harmonics[phi]:threshold"),
+    ("scipy-sign-correct-within-seven-periods", "generate_real_spherical_harmonics_scipy",
+     "sign_sin_phi = np.where(np.sin(phi) < 0.0, -1.0, 1.0)",
+     "sign_sin_phi = np.where(np.sin(np.clip(phi, -6 * np.pi, 8 * np.pi)) < 0.0, -1.0, 1.0)",
+     "generate_real_spherical_harmonics_scipy:far"),
+    ("recursion-wraps-polar-angle-in-place", "generate_real_spherical_harmonics",
+     "sin_phi = np.sin(phi, dtype=np.longdouble)", "phi %= 2 * np.pi\n    sin_phi = np.sin(phi, dtype=np.longdouble)",
+     "form:ylm:f8:unchanged"),
+    ("recursion-result-allocated-like-input", "generate_real_spherical_harmonics",
+     "spherical_harm = np.zeros(((l_max + 1) ** 2, numb_pts), dtype=np.longdouble)",
+     "spherical_harm = np.zeros_like(theta, shape=((l_max + 1) ** 2, numb_pts))", "form:ylm:i8:value"),
+    ("scipy-lmax-must-be-python-int", "generate_real_spherical_harmonics_scipy",
+     "if l_max < 0:", "if not isinstance(l_max, int) or l_max < 0:", "form:ylm_scipy:f8:returns"),
+    ("scipy-no-points-one-column", "generate_real_spherical_harmonics_scipy",
+     "n_pts = len(theta)", "n_pts = max(len(theta), 1)", "form:ylm_scipy:f8:"),
+    ("cart-subtracts-centre-in-place", "convert_cart_to_sph",
+     "relat_pts = points - center", "points -= center\n    relat_pts = points", "form:cart:f8:unchanged"),
+    ("cart-origin-test-with-tolerance", "convert_cart_to_sph",
+     "phi[r == 0.0] = 0.0", "phi[r < 1e-12] = 0.0", "convert_cart_to_sph:scaled-2^-300"),
+    ("gradient-theta-column-sign", "convert_derivative_from_spherical_to_cartesian",
+     "-np.sin(theta) / (r * np.sin(phi)),", "np.sin(theta) / (r * np.sin(phi)),",
+     "convert_derivative_from_spherical_to_cartesian:general"),
+    ("gradient-phi-column-without-1/r", "convert_derivative_from_spherical_to_cartesian",
+     "np.cos(theta) * np.cos(phi) / r,", "np.cos(theta) * np.cos(phi),", "convert_derivative_from_spherical_to_cartesian:"),
+    ("gradient-origin-cut-1e-4", "convert_derivative_from_spherical_to_cartesian",
+     "if np.abs(r) < 1e-10:", "if np.abs(r) < 1e-4:", "convert_derivative_from_spherical_to_cartesian:general:float"),
+    ("gradient-pole-convention-dropped", "convert_derivative_from_spherical_to_cartesian",
+     "if np.abs(phi) < 1e-10:", "if np.abs(phi) < -1.0:", "convert_derivative_from_spherical_to_cartesian:phi0"),
+    ("solid-power-capped-at-20", "solid_harmonics",
+     "r ** degrees[:, None]", "r ** np.minimum(degrees[:, None], 20.0)", "solid_harmonics:high-degree"),
+    ("atomgrid-route-ignores-centre", "AtomGrid.convert_cartesian_to_spherical",
+     "center = self.center if center is None else np.asarray(center)", "center = self.center",
+     "convert_cart_to_sph:atomgrid-route"),
+]
+
+
+def _drop_last(w):
+    return w[:-1]
+
+
+def _flip_value(w):
+    w = [dict(o) for o in w]
+    k = next(i for i, o in enumerate(w) if o["form"]["func"] == "solid" and o["form"]["dtype"] == "f8")
+    w[k]["value"] = False
+    return w
+
+
+def _swap_two(w):
+    w = list(w)
+    w[3], w[4] = w[4], w[3]
+    return w
+
+
+JUDGE_CORRUPTIONS = [("judge:observation-dropped", _drop_last, "forms:"),
+                     ("judge:value-flag-cleared", _flip_value, "form:solid:f8:value"),
+                     ("judge:observations-misaligned", _swap_two, "form:")]
+
+
 def selftest(tier: str) -> int:
-    """Every mutant must be reported as a violation by run('quick')."""
+    """Every mutant must be reported as a violation by run('quick'); the mutants of the audit clauses must be reported by
+    the clause they were written for.  VERIF_C08_MUTANTS=name,name restricts the run (development aid)."""
     import contextlib
     import io
+    import os
+    global _CORRUPT
+    only = [x for x in os.environ.get("VERIF_C08_MUTANTS", "").split(",") if x]
     killed, missed = [], []
-    for name, fn, old, new in MUTANTS:
-        restore = _mutant(fn, old, new)
+    todo = [(n, fn, old, new, None) for n, fn, old, new in MUTANTS] + list(AUDIT_MUTANTS)
+    todo += [(n, None, None, f, key) for n, f, key in JUDGE_CORRUPTIONS]
+    for name, fn, old, new, key in todo:
+        if only and name not in only:
+            continue
+        if fn is None:
+            _CORRUPT = new
+            restore = lambda: None  # noqa: E731
+        else:
+            restore = _mutant(fn, old, new)
         buf = io.StringIO()
         try:
             with contextlib.redirect_stdout(buf):
                 rc = run("quick")
         finally:
             restore()
+            _CORRUPT = None
         lines = [l for l in buf.getvalue().splitlines() if l.startswith("VIOLATION")]
-        (killed if rc == 1 and lines else missed).append(name)
-        print(f"mutant {name:36s} -> {'KILLED' if rc == 1 and lines else 'MISSED'}  ({len(lines)} violation keys"
-              + (f", e.g. {lines[0].split('#')[1].strip()[:110]}" if lines else "") + ")")
-    print(f"selftest: {len(killed)}/{len(MUTANTS)} mutants killed; missed: {missed}")
+        keys = [l.split("#")[1].strip() for l in lines if "#" in l]
+        hit = [k for k in keys if key is None or k.startswith(key)]
+        ok = rc == 1 and bool(lines) and bool(hit)
+        (killed if ok else missed).append(name)
+        print(f"mutant {name:42s} -> {'KILLED' if ok else 'MISSED'}  ({len(lines)} violation keys"
+              + (f", e.g. {(hit or keys)[0][:110]}" if keys else "") + ")")
+    print(f"selftest: {len(killed)}/{len(killed) + len(missed)} mutants killed; missed: {missed}")
     run("quick")  # leave a clean evidence file behind
     return 0 if not missed else 1
